@@ -252,7 +252,7 @@ class Ops:
         if type(a) in (int, float, str, bytes, bool, type(None)) and type(b) in (int, float, str, bytes, bool, type(None)):
             return a == b
         if isinstance(a, SetV) and isinstance(b, SetV):
-            raise Unsupported("set equality")
+            return self.and_(*[self.contains(b, x) for x in a.items], *[self.contains(a, y) for y in b.items])
         return a is b
 
     def eq_ref(self, x, y):
@@ -303,6 +303,14 @@ class Ops:
 
     # ---------------------------------------------------------------- arithmetic
     def binop(self, op, a, b):
+        if (isinstance(a, float) and a != a) or (isinstance(b, float) and b != b):
+            if num_kind(a) and num_kind(b):
+                return float("nan")
+        if isinstance(a, NdArr) or isinstance(b, NdArr):
+            from . import npmodel
+            if isinstance(op, ast.MatMult):
+                return npmodel.dot(self, a, b)
+            return npmodel.elementwise(self, op, a, b)
         # concrete fast path
         if _is_conc_scalar(a) and _is_conc_scalar(b):
             return self._conc_binop(op, a, b)
@@ -423,6 +431,12 @@ class Ops:
             a = a.value
         if _is_conc_scalar(a):
             return {ast.USub: operator.neg, ast.UAdd: operator.pos, ast.Invert: operator.invert}[t](a)
+        if isinstance(a, NdArr):
+            from . import npmodel
+            if t is ast.USub:
+                return npmodel.elementwise(self, ast.Mult(), a, -1.0)
+            if t is ast.UAdd:
+                return a
         k = num_kind(a)
         if k:
             z = to_z3(a, k)
@@ -442,6 +456,9 @@ class Ops:
     def compare(self, op, a, b):
         """-> bool | z3 Bool"""
         t = type(op)
+        if t in (ast.Eq, ast.NotEq) and (isinstance(a, NdArr) or isinstance(b, NdArr)):
+            from . import npmodel
+            return npmodel.elementwise(self, op, a, b)
         if t is ast.Eq:
             return self.eq(a, b)
         if t is ast.NotEq:
@@ -454,6 +471,9 @@ class Ops:
             return self.contains(b, a)
         if t is ast.NotIn:
             return self.not_(self.contains(b, a))
+        if isinstance(a, NdArr) or isinstance(b, NdArr):
+            from . import npmodel
+            return npmodel.elementwise(self, op, a, b)
         if isinstance(a, EnumVal) and a.cls.is_intenum:
             a = a.value
         if isinstance(b, EnumVal) and b.cls.is_intenum:
@@ -480,7 +500,8 @@ class Ops:
         return NOT_IMPLEMENTED
 
     def sqrt_model(self, a):
-        raise Unsupported("sqrt")
+        from . import npmodel
+        return npmodel.sqrt(self, a)
 
 
 class _NotImpl:
